@@ -277,8 +277,14 @@ pub fn big_doc(kind: u8, size_sel: u8, seed: u16, level: u8) -> M {
         3 => {
             let d = [10usize, 16, 17, 31, 32, 33, 64, 100][size_sel as usize % 8];
             let mut m = small_leaf(seed as usize, seed);
+            // the nested child is sometimes followed by a sibling, sometimes preceded by one
             for i in 0..d {
-                m = if (i + seed as usize) % 2 == 0 { M::Arr(vec![M::Null, m]) } else { M::Obj([("k".to_string(), m), ("a".to_string(), M::Bool(true))].into_iter().collect()) };
+                m = match (i + seed as usize) % 4 {
+                    0 => M::Arr(vec![M::Null, m]),
+                    1 => M::Obj([("k".to_string(), m), ("a".to_string(), M::Bool(true))].into_iter().collect()),
+                    2 => M::Arr(vec![m, M::Str("b".into())]),
+                    _ => M::Obj([("k".to_string(), m), ("z".to_string(), M::Null)].into_iter().collect()),
+                };
             }
             m
         }
